@@ -105,6 +105,10 @@ def doc(css, body, head=""):
 # (user !important beats author normal), which makes makeAllPages re-make exactly the
 # pages holding an active probe: S is the restart pattern explored by seed.
 PROBE_CSS = '.probe::after { content: "np9" }\n'
+# for documents of 10-99 pages the literal has the width of the FINAL value (2 digits), so
+# that the first pagination pass of an active probe ("np0", narrower) differs from the final
+# layout and the re-pagination really has to move content
+PROBE_CSS2 = '.probe::after { content: "np99" }\n'
 
 
 PROBE_N = [0]
@@ -793,8 +797,27 @@ def gen_feat3():
              files={"odd.css": (sheet, dict(mime="text/css", kind="css"))}, expect=dict(margin=True, page_w=260, page_h=160, sentinels=W, line_height=12))
 
 
+def gen_pag2():
+    # >= 10 pages: the probe text gets WIDER between the first pass (np0) and the final one (npNN);
+    # paragraphs are exactly as wide as "w w w npNN" minus 5px, so the wider text wraps and pushes
+    # lines (and page breaks) down: the re-pagination has to re-make the following pages too
+    for n, (H, npar, probes_at) in enumerate([(110, 40, (3, 17, 30)), (150, 56, (0, 25)), (98, 36, (10, 11, 12))], start=17):
+        css = page_css(205, H, 10) + BASE + "p { width: 185px; orphans: 1; widows: 1 }\n" + PROBE_CSS2
+        body, flow = [], []
+        wi = 1
+        for pi in range(npar):
+            k = 6 + (pi * 7) % 5
+            if pi in probes_at:
+                k = 6  # two full lines of three words; the probe ends the second line
+            ws = words("w", k, wi); wi += k; flow += ws
+            body.append(para(ws, "", k - 1 if pi in probes_at else None))
+        scenario("pag-%02d" % n, "pag", doc(css, "\n".join(body)),
+                 expect=dict(flows={"main": flow}, margin=True, page_w=205, page_h=H, conserve=True, geometry=True, fits_page=True, line_height=12, margin_top=10, margin_bottom=10, probe_literal=99))
+
+
 def main():
     gen_pag()
+    gen_pag2()
     gen_feat3()
     gen_feat2()
     gen_brk()
